@@ -27,3 +27,6 @@ def run(ctx, rep):
                             "hands the lines on unchanged", floor=10)
     from .chain import check_chain
     check_chain(ctx, rch, "instrument", strict=True)
+    rfo = rep.rule("folds", "each kind's data are folded datum by datum, in order, by that kind's own builder with its predecessor and the tempo map", floor=6)
+    from .timing import Timing as _T
+    _T(ctx).check_folds(rfo)
